@@ -183,7 +183,9 @@ def property_checks(inp):
                 got_ = cen.centre_of_gravity(sv.copy(), threshold=thr_)
                 want_ = numpy.array([cen.centre_of_gravity(f_[None].copy(), threshold=thr_)[:, 0] for f_ in sv]).T
                 for kfr in (0, 2, 3):
-                    worst_iso = max(worst_iso, float(numpy.abs(got_[:, kfr] - want_[:, kfr]).max()) if numpy.all(numpy.isfinite(want_[:, kfr])) else 0.0)
+                    if numpy.all(numpy.isfinite(want_[:, kfr])):
+                        e_ = float(numpy.abs(got_[:, kfr] - want_[:, kfr]).max()) if numpy.all(numpy.isfinite(got_[:, kfr])) else float("inf")
+                        worst_iso = e_ if e_ > worst_iso else worst_iso
         A(("a NaN / inf / vastly brighter or fainter frame in a stack leaves the centroids of the other frames alone", worst_iso, 1e-9))
         # a stack held in another memory order (column-major, swapped-axes view) is the same stack, threshold or not
         worst_mo = 0.0
